@@ -1207,38 +1207,39 @@ def replay(inp):
 
 MANIFEST_ENTRY = {
     'technique': 'Lean 4 proofs (adjoint algebra over any field with conjugation; Mathlib HasDerivAt for softmax / activations / '
-                 'cost functions) over translator-generated glue + dot-product and finite-difference correspondence on the real code',
-    'text': ('PROVED for all inputs (no sorry, standard axioms): (1) linear nodes, over every field with an involutive conjugation '
-             '(C with complex conjugation, R with the identity) and for ALL sizes, matrices and data: <y, Eo f Ei> = <Eo^H y Ei^H, f> in both '
-             'associations (dft2_backprop / idft2_backprop for every Q, shape, shift), mask multiplication, the composed mask-and-back '
-             'operator idft.mask.dft and its backprop with the sign / conjugation flags read off the source, Babinet '
-             'L*(x - T x) with the combination coefficient read off the source, pad/crop with the offsets translated from pad2d / '
-             'crop_center, strided scatter/gather (actuator lattice), Fourier filtering ifft2(fft2(x) H) against filtering with conj(H) '
-             '(only contract used: ifft = c fft^H, c real), the whole DM.render chain (scatter, filter, real scale, pad or crop) against '
-             'render_backprop, the modal sum with real modes, the SpatialGradient2D forward/backprop statements as translated '
-             '(NumPy slice-assignment interpreter, every axis length including 0,1,2) and their row/column liftings; the same identities '
-             'for the executable model itself (complex numbers as pairs of reals, concrete matrix-DFT bases, per-axis Q, both shifts) by '
-             'transport to Mathlib C, and agreement of the tabulated pipelines the driver runs with the pure definitions. (2) non-linear '
-             'nodes: exact polynomial expansions for the intensity node and the mean-square error; the phase node under the derivation '
-             'law u\' = i k u (instantiated with Complex.exp); HasDerivAt theorems for softmax (VJP = s*(g - <g,s>)), shift invariance, '
-             'Gumbel-softmax (1/tau), the discrete encoder, tanh / arctan / softplus / sigmoid (all a, x0, y0), the negative '
-             'log-likelihood, and the bias-and-gain-invariant error in full (normal equations, stationarity of gain and bias, envelope '
-             'argument made rigorous). TRANSLATED from the current source on every run (the theorems are re-checked against it): '
-             'the Q / shift / shape wiring of focus/unfocus_fixed_sampling(_backprop) and of to_fpm_and_back(_backprop) by symbolic '
-             'execution with callee inlining (backprop legs must equal the forward legs for all arguments), sign and mask conjugation '
-             'of the mask-and-back adjoint, Babinet combination, SpatialGradient2D slice statements and axes, the closed forms of '
-             'mean_square_error / bias_and_gain_invariant_error / negative_loglikelihood, of the four activations, of the softmax / '
-             'Gumbel / encoder backprops, of intensity_backprop and from_amp_and_phase_backprop_phase, pad/crop offsets, and structural '
-             'facts (dft2/idft2_backprop use the conjugate transposes of the forward\'s cached bases; sum_of_2d_modes_backprop contracts '
-             'both image axes; DM.render_backprop reverses render\'s steps with conj(tf) and the adjoint resampler). '
-             'MODELLED-AND-COMPARED: every case runs the property\'s own predicate on the real code (dot-product test at 1e-10, '
-             'Richardson central differences at 1e-6) and compares the real backprop with the Lean model in Float at 1e-9, the model being '
-             'given the forward\'s own ingredients (its cached basis matrices, the DM transfer function / lattice / resize offsets) so '
-             'that only adjointness is judged. PARTIAL / NOT COVERED: DM rotation (spline warp is not an exact adjoint by construction), '
-             'the adjoint of fourier_resample (upsample != 1) is checked numerically only, CZT backprops do not exist in prysm, '
-             'complex modes in sum_of_2d_modes_backprop, floating-point error, scipy.fft internals.'),
-    'note': ('Trusted: Lean kernel + propext/Classical.choice/Quot.sound; tools/gen_c06.py (symbolic executor and expression translators; '
-             'validated by running model vs code each run); NumPy matmul/tensordot/slicing and scipy.fft semantics; tolerances above. '
-             'Stand-alone models of forward semantics (Q formula, basis formula, DM lattice) are compared too but only as non-blocking '
-             'fidelity notes: forward semantics belong to C01/C03/C05/C15, and a consistent change of forward and backprop keeps C06 true.'),
+                 'cost functions / phase) over translator-generated terms + dot-product and finite-difference correspondence on the real code',
+    'text': ('PROVED for all inputs (no sorry, standard axioms).  Linear nodes, over every field with an involutive conjugation (C; R with the '
+             'identity), ALL sizes, matrices and data: <y, dft2(f)> = <dft2_backprop(y), f> and the idft2 pair, stated over the TRANSLATED bodies of '
+             'the four executor methods (matrix products / transposes / conjugates of the cached bases, both looked up under the same key); mask '
+             'multiplication; mask-and-back idft.mask.dft against its backprop with the sign / conjugation read off the source; Babinet '
+             'L*(x - T x) end to end (instantiated with the mask-and-back pair, coefficient read off the source); pad/crop with the offsets '
+             'translated from pad2d / crop_center; strided scatter/gather; Fourier filtering against filtering with conj(H) (only contract: ifft = c fft^H, '
+             'c real) and its real-part corollary; the DM.render chain without rotation / resampling in the pure padding and pure cropping '
+             'geometries; the modal sum with real modes (tensordot axes translated); the SpatialGradient2D statements as translated (every axis '
+             'length) with row/column liftings.  Non-linear nodes: intensity (exact quadratic); mean-square error RELATIVE to the translated '
+             'cost/gradient pair (any normalisation convention); phase node composed (HasDerivAt of phi -> Re<gbar, A exp(i k phi)> equals the '
+             'translated backprop, wavenumber translated from both sides); softmax VJP, its batch lifting, shift invariance, Gumbel-softmax '
+             '(1/tau), discrete encoder over softmax AND over Gumbel-softmax; tanh / arctan / softplus / sigmoid; negative log-likelihood; '
+             'bias-and-gain-invariant error in full (envelope argument made rigorous) -- the last seven through the recognised closed forms '
+             '(gen_* pins: a consistent change of convention in both forward and backward of those is reported as a tie failure).  '
+             'TRANSLATED every run: Q / shift / shape wiring of focus/unfocus_fixed_sampling(_backprop) and to_fpm_and_back(_backprop) by symbolic '
+             'execution (backprop legs equal the forward legs up to ring normalisation, for all arguments; tuple-valued samples, method=mdft, '
+             'return_more=False, ndarray mask -- the other argument forms are exercised numerically only), SpatialGradient2D slice statements, '
+             'cost / activation / softmax / encoder / Wavefront-node closed forms, pad/crop offsets, tensordot axes, the ordered operation lists of '
+             'DM.render and DM.render_backprop (each step the adjoint of the mirrored one), live-attribute obligation (no backprop reads state its '
+             'forward does not).  Recognised-shape FLAGS only (Bool, no Lean content): call wiring (*Wired), masked-cost branches, broadcasting '
+             'over the levels axis, forward shapes of softmax / Gumbel / encoder / intensity.  COMPARED on every case: the property\'s own '
+             'predicate on the real code (dot product at 1e-10; Richardson differences at 1e-6 plus the float64 resolution floor) and the real '
+             'backprop against the Lean model given the forward\'s OWN ingredients (cached bases, DM transfer function / lattice / offsets).  '
+             'Exercised numerically only: masked costs, int / list / scalar argument forms, return_more=True (all three arrays and the labels of the '
+             'returned Wavefronts), Wavefront / RichData container inputs, method=czt, upsample != 1 (adjoint resampler), re-assigned node '
+             'parameters and interleaved forwards, complex upstream gradients.  DM rotation: the companion is the inverse warp, NOT an exact adjoint '
+             '(interpolation + tilt Jacobian); tested at 5e-2 on smooth upstream gradients, no theorem.  Geometries on which DM.__init__ / render '
+             'themselves fail (non-square Nact, pad one axis and crop the other) are recorded, not judged.  The model-level theorems '
+             '(mdft_model_adjoint, fpm_model_adjoint, driver_pipelines_agree) are statements about the executable model only.  Not covered: '
+             'floating-point error, scipy.fft internals (the DFT contract is an assumption), complex modes.'),
+    'note': ('Trusted: Lean kernel + propext/Classical.choice/Quot.sound; tools/gen_c06.py (symbolic executor and expression translators; fallbacks '
+             'are printed as TIE-DEGRADED); NumPy matmul/tensordot/slicing and scipy.fft semantics; tolerances above.  Stand-alone models of forward '
+             'semantics (Q formula, basis formula, DM lattice, closed forms of costs and activations) are compared as non-blocking fidelity notes: '
+             'a consistent change of forward and backprop keeps C06 true.'),
 }
